@@ -218,4 +218,40 @@ CHECKS = {
                              "thorough": ["dir:already-valid", "dir:healed", "damage:hides-subtree", "damage:kind-swap:d->link", "damage:kind-swap:d->file", "damage:whole-directory-delete", "damage:whole-directory-empty"]},
         "stages": [rapid("heal", "TestProp", 960, 32000, qs=16, ts=16, qt=600, tt=5400, schedule_dependent=True)],
     },
+    "C16": {
+        "title": "Validation always terminates and a clean verdict is never caused by interruption",
+        "level": "exploration",
+        "technique": "rapid property-based testing over damage x consumer x cancellation instant x GOMAXPROCS with a watchdog as termination oracle and an independent validity verdict",
+        "level_text": ("Generated builds + damage (including a stage with >1024 wounds: 1100-2100 missing dirs/symlinks or damaged small files, and "
+                       "damage only in the last file) x consumer (fail-fast, wounds file writable/unwritable, healer with good/partial/missing "
+                       "archive, printer) x cancellation instant (before start, inside the n-th consumer callback, after a drawn delay, never) x "
+                       "GOMAXPROCS. Oracles: Validate returns on the calling goroutine within the watchdog (a hang is confirmed by a second run "
+                       "in a fresh process with a doubled deadline and goroutine stacks inside wharf); if fail-fast returns nil, an independent "
+                       "observer says the directory is identical to the signed build."),
+        "level_note": "interleavings are sampled; goroutines left inside wharf/pwr after return are counted in the evidence (coverage.extra), not judged.",
+        "rule": ("rapid draws (tree, damages, consumer, cancellation, GOMAXPROCS). Non-trivial: a damaged directory validated with a cancelled "
+                 "context or a consumer that failed. Distinct: SHA-1 of the spec."),
+        "assumptions": ["a case that needs more than 20s (30s for the >1024-wound stage) is treated as a hang candidate; normal cases take milliseconds to ~1s"],
+        "required_classes": {"quick": ["cancel:before-start", "cancel:in-callback", "cancel:after-delay", "consumer:failfast", "consumer:heal-partial", "tree:>1024-entries"],
+                             "thorough": ["cancel:before-start", "cancel:in-callback", "cancel:after-delay", "consumer:failfast", "consumer:heal-partial", "consumer:woundsfile-unwritable", "tree:>1024-entries", "many-damage:last-file"]},
+        "stages": [rapid("terminate", "TestProp", 1600, 48000, qs=16, ts=16, qt=600, tt=5400, schedule_dependent=True),
+                   rapid("manywounds", "TestMany", 48, 1600, qs=16, ts=16, qt=600, tt=5400, schedule_dependent=True, shrinktime="10s")],
+    },
+    "C18": {
+        "title": "Writing through a validating pool checks every block regardless of write sizes",
+        "level": "exploration",
+        "technique": "rapid property-based testing against a first-bad-block / wound-tiling reference model over generated contents and write slicings",
+        "level_text": ("1-3 files per pool (sizes around block multiples, empty) x written content (equal, flipped in a set of blocks, truncated, "
+                       "block-aligned prefix, extended, unrelated) x write slicing (1..50, 1..3 blocks, boundary-straddling, bytewise) x mode. "
+                       "Error mode: failure iff the model finds a first bad block b; the failing call is the one completing b; the inner pool "
+                       "received exactly written[:b*64KiB] (everything when none). Wound modes (plain and with the aggregate filter): markers in "
+                       "offset order, tiling [0, min(written, signed)) on the signed block grid without gaps, FILE wounds exactly on differing blocks."),
+        "level_note": "wounds emitted for blocks beyond the signed length are outside the statement and ignored by the tiling oracle.",
+        "rule": ("rapid draws (files, written variants, slicings, mode). Non-trivial: a write that straddles a block boundary together with a bad "
+                 "block that is not the first (error mode), or a differing block that is not the first (wound modes). Distinct: SHA-1 of the spec."),
+        "assumptions": [],
+        "required_classes": {"quick": ["mode:error", "mode:wounds", "mode:aggregate", "bad-block:not-first", "bad-block:beyond-signed-count", "write:straddles-block-boundary"],
+                             "thorough": ["mode:error", "mode:wounds", "mode:aggregate", "bad-block:not-first", "bad-block:beyond-signed-count", "write:straddles-block-boundary"]},
+        "stages": [rapid("validatingpool", "TestProp", 16000, 400000, qs=8, ts=16, qt=600, tt=5400)],
+    },
 }
